@@ -579,6 +579,99 @@ def rule_j_written_with_scale(ctx, pdfs):
     return n
 
 
+# the ProjData interface: what the int parameters of a getter mean, by position (bool parameters skipped) -> slot of the Bin constructor
+# (segment, view, axial position, tangential position, TOF index).  This is the public virtual interface of ProjData, not a local name.
+GETTER_SLOTS = {
+    "get_viewgram": (1, 0, 4),
+    "get_sinogram": (2, 0, 4),
+    "get_segment_by_sinogram": (0, 4),
+    "get_segment_by_view": (0, 4),
+}
+# index accessors of the piece a setter is handed -> slot
+PIECE_SLOTS = {
+    "Viewgram": {"get_segment_num": 0, "get_view_num": 1, "get_timing_pos_num": 4},
+    "Sinogram": {"get_segment_num": 0, "get_axial_pos_num": 2, "get_timing_pos_num": 4},
+    "SegmentBySinogram": {"get_segment_num": 0, "get_timing_pos_num": 4},
+    "SegmentByView": {"get_segment_num": 0, "get_timing_pos_num": 4},
+}
+MIN_OF_SLOT = {1: "get_min_view_num", 2: "get_min_axial_pos_num", 3: "get_min_tangential_pos_num"}
+
+
+def rule_k_address_names_the_piece(ctx, units):
+    """Reading piece X returns piece X: the Bin whose address a getter/setter requests is built from EVERY index of the piece asked for
+    (segment, view or axial position, TOF index - getters: their parameters by the ProjData interface's positions; setters: the index
+    accessors of the piece they are handed), each in its own slot of the Bin constructor, the other coordinates starting at the data's
+    minimum; and a getter constructs the piece it returns from the same indices.  A Bin built without the TOF index addresses TOF bin 0."""
+    n = 0
+    for u, cls, addr in units:
+        seen = set()
+        for fn in u.functions:
+            if fn.cls != cls or fn.body is None or fn.is_dependent or (fn.file, fn.line) in seen:
+                continue
+            reqs_ = [c for c in fn.calls() if (c.callee or "") == addr and c.call_args() and c.call_args()[0].strip().k == "DeclRefExpr" and c.call_args()[0].strip().get("dk") == "local"]
+            if not reqs_:
+                continue
+            seen.add((fn.file, fn.line))
+            defs = LocalDefs(fn)
+            sub = {d: defs.single_def(d) for d in defs.decl}
+            for bd in sorted({c.call_args()[0].strip().get("d") for c in reqs_}):
+                vd = defs.decl.get(bd)
+                ctor = vd.c[0].strip() if vd is not None and vd.c else None
+                fid = fn.qn + "(" + fn.sig[:40] + ")"
+                if ctor is None or ctor.k != "CXXConstructExpr":
+                    ctx.unrec(fid, "the Bin of the address request is not constructed in place")
+                    continue
+                args = [a.strip() for a in ctor.c]
+                slots = {i: key(a, False, sub) for i, a in enumerate(args)}
+                want = {}
+                piece = None
+                if fn.short in GETTER_SLOTS:
+                    ints = [pp for pp in fn.params if pp["t"].replace("const ", "").strip() == "int"]
+                    m = GETTER_SLOTS[fn.short]
+                    if len(ints) != len(m):
+                        ctx.unrec(fid, "getter with %d int parameters (interface has %d)" % (len(ints), len(m)))
+                        continue
+                    want = {slot: "v%d" % pp["d"] for slot, pp in zip(m, ints)}
+                else:
+                    pps = [pp for pp in fn.params if any(re.search(r"\b%s<" % t, pp["t"]) for t in PIECE_SLOTS)]
+                    if len(pps) != 1:
+                        continue
+                    piece = [t for t in PIECE_SLOTS if re.search(r"\b%s<" % t, pps[0]["t"])][0]
+                    want = {slot: "v%d.%s()" % (pps[0]["d"], acc) for acc, slot in PIECE_SLOTS[piece].items()}
+                problems = []
+                if len(args) < 5 or "int" not in (args[4].type or ""):
+                    problems.append("the Bin is built without a TOF index (TOF bin 0 is addressed whatever was asked for)")
+                for slot, w in sorted(want.items()):
+                    if slot < len(args) and slots.get(slot) != w:
+                        problems.append("slot %d of the Bin is `%s`, not the index of the piece asked for" % (slot, key(args[slot], True)))
+                for slot, acc in MIN_OF_SLOT.items():
+                    if slot in want or slot >= len(args):
+                        continue
+                    ok_min = re.fullmatch(r"this\.%s\((%s)?\)" % (acc, re.escape(slots.get(0, ""))), slots[slot]) is not None
+                    if not ok_min:
+                        problems.append("slot %d of the Bin is `%s`, not the data's minimum (%s)" % (slot, key(args[slot], True), acc))
+                # the piece a getter returns is constructed from the same indices
+                if fn.short in ("get_viewgram", "get_sinogram"):
+                    pc = [m_ for m_ in fn.walk() if m_.k == "CXXConstructExpr" and re.search(r"\b(Viewgram|Sinogram)<", m_.type or "") and len(m_.c) in (2, 4) and "shared_ptr" in (m_.c[0].strip().type or "")]
+                    first = 1 if fn.short == "get_viewgram" else 2
+                    for m_ in pc[:1]:
+                        if len(m_.c) == 2:
+                            # constructed from the address Bin itself
+                            if not (m_.c[1].strip().k == "DeclRefExpr" and m_.c[1].strip().get("d") == bd):
+                                problems.append("the returned piece is constructed from another Bin than the one whose address is requested")
+                            continue
+                        got = [key(a.strip(), False, sub) for a in m_.c[1:]]
+                        exp = [want[first], want[0], want[4]]
+                        if got != exp:
+                            problems.append("the returned piece is constructed for other indices than the ones requested")
+                    if not pc:
+                        ctx.unrec(fid, "construction of the returned piece not found")
+                ok = not problems
+                ctx.ob("C02.k-address-names-the-piece", fid, "Bin#%d" % bd if False else "address-bin", ok, vd.where(), "the address request is made for (segment, %s, TOF index) of the piece, other coordinates at the data's minimum" % ("view" if 1 in want else "axial position" if 2 in want else "whole segment") if ok else "; ".join(problems))
+                n += 1
+    return n
+
+
 def run(ctx):
     ctx.explanation = (
         "Decides structural necessary conditions of C02 from the source: (a) all five bin coordinates are range-checked "
@@ -618,6 +711,8 @@ def run(ctx):
             continue
         rule_b_tof_stride_def(ctx, fns[0], with_elem)
     rule_c_single_address_map(ctx, pdfs, pdim)
+    rule_k_address_names_the_piece(ctx, [(pdfs, "stir::ProjDataFromStream", "stir::ProjDataFromStream::get_offset"), (pdim, "stir::ProjDataInMemory", "stir::ProjDataInMemory::get_index")])
+    ctx.require_count("C02.k-address-names-the-piece", 14)
     rule_d_flush(ctx, pdfs)
     rule_e_results_used(ctx, [pdfs, pdim])
     hw = [f for f in (ifile.functions if ifile else []) if f.body is not None and "ProjDataFromStream" in f.sig]
